@@ -2,6 +2,10 @@
 // run seed, before anything is executed.
 #include "gen.h"
 
+#include "rapidjson/document.h"
+#include "rapidjson/stringbuffer.h"
+#include "rapidjson/writer.h"
+
 #include <algorithm>
 #include <cctype>
 #include <cstdio>
@@ -43,6 +47,11 @@ namespace sim
       }
     p.step_cap = 200000;
     return p;
+  }
+
+  namespace
+  {
+    void place_near_slab(const GenWorld &g, const SlabMeta &m, Rng &rng, double &x, double &y, double &depth, std::string &note);
   }
 
   // ------------------------------------------------------------------ C01
@@ -127,6 +136,55 @@ namespace sim
     }
   }
 
+  namespace
+  {
+    // the same world with one more feature painted last: a layer over everything that adds to the temperature.
+    // Whatever an earlier feature remembers about "the temperature here" is then no longer the world's answer.
+    std::string append_warm_layer(const WorldInfo &w, Rng &rng)
+    {
+      rapidjson::Document d;
+      d.Parse<rapidjson::kParseCommentsFlag | rapidjson::kParseNanAndInfFlag | rapidjson::kParseIterativeFlag>(w.content.c_str(), w.content.size());
+      if (d.HasParseError() || !d.IsObject() || !d.HasMember("features") || !d["features"].IsArray())
+        return w.content;
+      auto &al = d.GetAllocator();
+      const double ex = w.xmax - w.xmin, ey = w.ymax - w.ymin;
+      double x0 = w.xmin - 0.5 * ex, x1 = w.xmax + 0.5 * ex, y0 = w.ymin - 0.5 * ey, y1 = w.ymax + 0.5 * ey;
+      if (w.spherical)
+        {
+          x0 = std::max(-359.0, x0);
+          x1 = std::min(359.0, x1);
+          y0 = std::max(-89.0, y0);
+          y1 = std::min(89.0, y1);
+        }
+      rapidjson::Value f(rapidjson::kObjectType);
+      f.AddMember("model", "mantle layer", al);
+      f.AddMember("name", "warm layer painted last", al);
+      rapidjson::Value coords(rapidjson::kArrayType);
+      const double cs[4][2] = {{x0, y0}, {x1, y0}, {x1, y1}, {x0, y1}};
+      for (const auto &c : cs)
+        {
+          rapidjson::Value p(rapidjson::kArrayType);
+          p.PushBack(c[0], al).PushBack(c[1], al);
+          coords.PushBack(p, al);
+        }
+      f.AddMember("coordinates", coords, al);
+      f.AddMember("min depth", 0.0, al);
+      f.AddMember("max depth", std::floor(rng.real(100e3, 1.2 * w.max_depth + 100e3)), al);
+      rapidjson::Value tm(rapidjson::kObjectType);
+      tm.AddMember("model", "uniform", al);
+      tm.AddMember("temperature", std::floor(rng.real(50, 400)), al);
+      tm.AddMember("operation", rapidjson::Value(rng.chance(0.75) ? "add" : "subtract", al), al);
+      rapidjson::Value tms(rapidjson::kArrayType);
+      tms.PushBack(tm, al);
+      f.AddMember("temperature models", tms, al);
+      d["features"].PushBack(f, al);
+      rapidjson::StringBuffer sb;
+      rapidjson::Writer<rapidjson::StringBuffer, rapidjson::UTF8<>, rapidjson::UTF8<>, rapidjson::CrtAllocator, rapidjson::kWriteNanAndInfFlag> wr(sb);
+      d.Accept(wr);
+      return std::string(sb.GetString(), sb.GetSize());
+    }
+  }
+
   bool gen_c01(uint64_t seed, uint64_t run, const std::string &tier, Scenario &s)
   {
     const uint64_t rs = hash_mix(seed, run);
@@ -142,9 +200,11 @@ namespace sim
     // the files of this run: corpus worlds and generated ones
     const int nfiles = static_cast<int>(rng.range(1, 3));
     std::vector<WorldInfo> infos;
+    std::vector<GenWorld> gens;
     for (int i = 0; i < nfiles; ++i)
       {
         WorldInfo w;
+        GenWorld gw;
         if (rng.chance(0.1))
           {
             gen_edge_world(rng, w);
@@ -154,10 +214,22 @@ namespace sim
           {
             GenWorld g = gen_rich_world(rng, false);
             w = analyse_world("gen" + std::to_string(i) + ".wb", g.json);
+            gw = g;
             s.generator = "c01+rich";
           }
         else
           w = cat[ok[rng.below(ok.size())]];
+        if (rng.chance(0.12))
+          {
+            const std::string keep = w.name;
+            const bool edge = w.edge_world;
+            WorldInfo w2 = analyse_world(keep, append_warm_layer(w, rng));
+            if (w2.parse_ok && !edge)
+              {
+                w = w2;
+                s.generator += "+layer";
+              }
+          }
         if (i > 0 && rng.chance(0.3))
           {
             // a sibling of the first file that differs in one number (stale state keyed by anything but the
@@ -170,10 +242,70 @@ namespace sim
           }
         w.name = "/simfs/w" + std::to_string(i) + "_" + w.name.substr(w.name.find_last_of('_') == std::string::npos ? 0 : 0);
         infos.push_back(w);
+        gens.push_back(gw);
         s.files[w.name] = w.content;
       }
     ProbePoint last_point;
     bool have_last_point = false;
+    if (rng.chance(0.08))
+      {
+        // "reincarnation": a world is asked a last question and destroyed, a sibling that differs in one number is
+        // built in its place (very likely at the same addresses) and is asked the very same question first. State
+        // that outlives a world - a memo keyed by object address, a static cache - answers for the dead world.
+        s.generator += "+reincarnation";
+        WorldInfo a = infos[0], b = infos[0];
+        for (int tries = 0; tries < 6; ++tries)
+          {
+            WorldInfo c = analyse_world("sib.wb", perturb_one_number(infos[0].content, rng));
+            if (c.parse_ok)
+              {
+                b = c;
+                break;
+              }
+          }
+        b.name = "/simfs/w9_sibling.wb";
+        b.edge_world = false;
+        s.files[b.name] = b.content;
+        s.ops.clear();
+        Slot slot;
+        const int rounds = static_cast<int>(rng.range(3, 7));
+        Op last;
+        bool have_last = false;
+        for (int k = 0; k < rounds; ++k)
+          {
+            const WorldInfo &w = (k % 2 == 0) ? a : b;
+            Op c;
+            c.op = "create";
+            c.h = 0;
+            c.file = w.name;
+            s.ops.push_back(c);
+            if (have_last)
+              s.ops.push_back(last); // the dead world's last question, first thing
+            const int nq = static_cast<int>(rng.range(1, 6));
+            for (int i = 0; i < nq; ++i)
+              {
+                Op q;
+                fill_query(q, w, slot, rng, false, true);
+                if (!gens[0].slabs.empty() && q.op == "q3" && rng.chance(0.6))
+                  {
+                    double x, y, depth;
+                    std::string note;
+                    place_near_slab(gens[0], gens[0].slabs[rng.below(gens[0].slabs.size())], rng, x, y, depth, note);
+                    natural_to_query(w, x, y, std::max(0.0, depth), q.p);
+                    q.d = std::max(0.0, depth);
+                  }
+                q.h = 0;
+                s.ops.push_back(q);
+                last = q;
+                have_last = true;
+              }
+            Op d;
+            d.op = "destroy";
+            d.h = 0;
+            s.ops.push_back(d);
+          }
+        return true;
+      }
     const bool alloc_faults = frng.chance(0.2);
     const int nslots = static_cast<int>(rng.range(1, 4));
     std::vector<Slot> slots(static_cast<size_t>(nslots));
@@ -249,6 +381,20 @@ namespace sim
                 last_point = slot.used.back();
                 have_last_point = true;
               }
+            // in generated worlds with slabs or faults a third of the 3D points is placed inside / next to them
+            {
+              const size_t wi = static_cast<size_t>(slot.w - &infos[0]);
+              if (op.op == "q3" && wi < gens.size() && !gens[wi].slabs.empty() && rng.chance(0.35))
+                {
+                  double x, y, depth;
+                  std::string note;
+                  place_near_slab(gens[wi], gens[wi].slabs[rng.below(gens[wi].slabs.size())], rng, x, y, depth, note);
+                  if (depth < 0)
+                    depth = 0;
+                  natural_to_query(*slot.w, x, y, depth, op.p);
+                  op.d = depth;
+                }
+            }
             op.h = h;
             if (alloc_faults && frng.chance(0.08))
               op.alloc_fail = frng.range(1, 30);
